@@ -1322,8 +1322,16 @@ package main
 //@ ensures [C03] imp(isCT && !prevOK, has(o.Elems, k0) == has(src, k0))
 //@ ensures [C09] imp(isCT, has(o.Elems, k0) == has(src, k0))
 //@ ensures [C08] imp(isCT, has(o.Elems, k0) == (has(src, k0) || (prevOK && has(prev.Elems, k0))))
-//@ invariant[0] c.Elems != nil && (fresh(c.Elems) || (prevOK && same(c.Elems, prev.Elems)))
-//@ invariant[0] has(c.Elems, k0) == (done(k0) || (prevOK && same(c.Elems, prev.Elems) && has(prev.Elems, k0)))
+//@ # loop 0 prunes the keys of the earlier state that the source does not have
+//@ define pk0 = old(has(prev.Elems, k0))
+//@ invariant[0] prevOK && same(c.Elems, prev.Elems) && c.Elems != nil && len(diags) == 0
+//@ invariant[0] has(c.Elems, k0) == (pk0 && (!done(k0) || has(src, k0)))
+//@ invariant[0] imp(has(c.Elems, k0), c.Elems[k0] == old(prev.Elems[k0]))
+//@ invariant[0] has(tf.Attrs, "$NameSnake") == had && tf.Attrs["$NameSnake"] == prevA
+//@ # loop 1 copies the source's entries
+//@ invariant[$L] c.Elems != nil && (fresh(c.Elems) || (prevOK && same(c.Elems, prev.Elems)))
+//@ invariant[$L] has(c.Elems, k0) == (done(k0) || entry(has(c.Elems, k0)))
+//@ invariant[$L] imp(entry(has(c.Elems, k0)), has(src, k0))
 
 // elements of primitive collections
 //@ emits CopyTo when Kind == "PrimitiveList" || Kind == "PrimitiveMap"
@@ -1337,7 +1345,7 @@ package main
 //@ define cev = as(c.Elems[j0], $EVT)
 
 //@ emits CopyTo when Kind == "PrimitiveMap" && Ctx == "plain"
-//@ invariant[0] len(diags) == 0
+//@ invariant[$L] len(diags) == 0
 //@ ensures [C03,C06] imp(isCT && !weird, len(result) == 0)
 //@ define cev = as(c.Elems[k0], $EVT)
 
@@ -1359,19 +1367,19 @@ package main
 //@ ensures [C03,C19,C09,C08] imp(isCT && inr && !weird, is(el, $EVT) && !ev.Unknown && ev.Null == (src[j0] == nil) && imp(src[j0] != nil, same(ev.Value, $GoElemTypeIndirect(*src[j0]))))
 
 //@ emits CopyTo when Kind == "PrimitiveMap" && Ctx == "plain" && !IsNullable
-//@ invariant[0] imp(done(k0) && !weird, is(c.Elems[k0], $EVT) && !cev.Unknown && same(cev.Value, $CastTo(src[k0])))
+//@ invariant[$L] imp(done(k0) && !weird, is(c.Elems[k0], $EVT) && !cev.Unknown && same(cev.Value, $CastTo(src[k0])))
 //@ ensures [C03,C19,C09,C08] imp(isCT && inr && !weird, is(el, $EVT) && !ev.Unknown && same(ev.Value, $CastTo(src[k0])))
 
 //@ emits CopyTo when Kind == "PrimitiveMap" && Ctx == "plain" && !IsNullable && HasZero
-//@ invariant[0] imp(done(k0) && !weird, cev.Null == ($CastTo(src[k0]) == $ZeroValue))
+//@ invariant[$L] imp(done(k0) && !weird, cev.Null == ($CastTo(src[k0]) == $ZeroValue))
 //@ ensures [C04] imp(isCT && inr && !weird, ev.Null == ($CastTo(src[k0]) == $ZeroValue))
 
 //@ emits CopyTo when Kind == "PrimitiveMap" && Ctx == "plain" && !IsNullable && !HasZero
-//@ invariant[0] imp(done(k0) && !weird, !cev.Null)
+//@ invariant[$L] imp(done(k0) && !weird, !cev.Null)
 //@ ensures [C04] imp(isCT && inr && !weird, !ev.Null)
 
 //@ emits CopyTo when Kind == "PrimitiveMap" && Ctx == "plain" && IsNullable
-//@ invariant[0] imp(done(k0) && !weird, is(c.Elems[k0], $EVT) && !cev.Unknown && cev.Null == (src[k0] == nil) && imp(src[k0] != nil, same(cev.Value, $GoElemTypeIndirect(*src[k0]))))
+//@ invariant[$L] imp(done(k0) && !weird, is(c.Elems[k0], $EVT) && !cev.Unknown && cev.Null == (src[k0] == nil) && imp(src[k0] != nil, same(cev.Value, $GoElemTypeIndirect(*src[k0]))))
 //@ ensures [C03,C19,C09,C08] imp(isCT && inr && !weird, is(el, $EVT) && !ev.Unknown && ev.Null == (src[k0] == nil) && imp(src[k0] != nil, same(ev.Value, $GoElemTypeIndirect(*src[k0]))))
 
 // elements of object collections
@@ -1381,7 +1389,7 @@ package main
 //@ define eot = as(ct.ElemType, types.ObjectType)
 //@ requires imp(isCT && src != nil, is(ct.ElemType, types.ObjectType))
 //@ define weirdAttrs = ite(weird, as(prevA, types.Object).Attrs, zero(map[string]attr.Value))
-//@ invariant[0] has(tf.Attrs, "$NameSnake") == had && tf.Attrs["$NameSnake"] == prevA
+//@ invariant[$L] has(tf.Attrs, "$NameSnake") == had && tf.Attrs["$NameSnake"] == prevA
 
 //@ emits CopyTo when Kind == "ObjectList" && Ctx == "plain"
 //@ define ceo = as(c.Elems[j0], types.Object)
@@ -1390,7 +1398,7 @@ package main
 //@ define dn = done(j0) && inr
 
 //@ emits CopyTo when Kind == "ObjectMap" && Ctx == "plain"
-//@ invariant[0] imp(dn && !weird, ceo.Attrs != c.Elems)
+//@ invariant[$L] imp(dn && !weird, ceo.Attrs != c.Elems)
 //@ define ceo = as(c.Elems[k0], types.Object)
 //@ define sj = src[k0]
 //@ define cel = c.Elems[k0]
@@ -1400,16 +1408,16 @@ package main
 //@ define encX = nestedEncode(sj.X, eot.AttrTypes["x"], zero(attr.Value))
 
 //@ emits CopyTo when (Kind == "ObjectList" || Kind == "ObjectMap") && Ctx == "plain" && Nested == "marker" && IsNullable
-//@ invariant[0] imp(dn && !weird, is(cel, types.Object) && !ceo.Unknown && ceo.AttrTypes == eot.AttrTypes && ceo.Null == (sj == nil))
-//@ invariant[0] imp(dn && !weird && sj != nil, ceo.Attrs != nil && fresh(ceo.Attrs))
-//@ invariant[0] imp(dn && !weird && sj != nil && has(eot.AttrTypes, "x"), has(ceo.Attrs, "x"))
-//@ invariant[0] imp(dn && !weird && sj != nil && has(eot.AttrTypes, "x"), ceo.Attrs["x"] == encX)
+//@ invariant[$L] imp(dn && !weird, is(cel, types.Object) && !ceo.Unknown && ceo.AttrTypes == eot.AttrTypes && ceo.Null == (sj == nil))
+//@ invariant[$L] imp(dn && !weird && sj != nil, ceo.Attrs != nil && fresh(ceo.Attrs))
+//@ invariant[$L] imp(dn && !weird && sj != nil && has(eot.AttrTypes, "x"), has(ceo.Attrs, "x"))
+//@ invariant[$L] imp(dn && !weird && sj != nil && has(eot.AttrTypes, "x"), ceo.Attrs["x"] == encX)
 //@ ensures [C03,C09,C02,C08] imp(isCT && inr && !weird, is(el, types.Object) && !eo.Unknown && eo.AttrTypes == eot.AttrTypes && eo.Null == (sj == nil) && imp(sj != nil && has(eot.AttrTypes, "x"), has(eo.Attrs, "x") && eo.Attrs["x"] == encX))
 
 //@ emits CopyTo when (Kind == "ObjectList" || Kind == "ObjectMap") && Ctx == "plain" && Nested == "marker" && !IsNullable
-//@ invariant[0] imp(dn && !weird, is(cel, types.Object) && !ceo.Unknown && ceo.AttrTypes == eot.AttrTypes && !ceo.Null && ceo.Attrs != nil && fresh(ceo.Attrs))
-//@ invariant[0] imp(dn && !weird && has(eot.AttrTypes, "x"), has(ceo.Attrs, "x"))
-//@ invariant[0] imp(dn && !weird && has(eot.AttrTypes, "x"), ceo.Attrs["x"] == encX)
+//@ invariant[$L] imp(dn && !weird, is(cel, types.Object) && !ceo.Unknown && ceo.AttrTypes == eot.AttrTypes && !ceo.Null && ceo.Attrs != nil && fresh(ceo.Attrs))
+//@ invariant[$L] imp(dn && !weird && has(eot.AttrTypes, "x"), has(ceo.Attrs, "x"))
+//@ invariant[$L] imp(dn && !weird && has(eot.AttrTypes, "x"), ceo.Attrs["x"] == encX)
 //@ ensures [C03,C09,C02,C08] imp(isCT && inr && !weird, is(el, types.Object) && !eo.Unknown && eo.AttrTypes == eot.AttrTypes && !eo.Null && imp(has(eot.AttrTypes, "x"), has(eo.Attrs, "x") && eo.Attrs["x"] == encX))
 
 
@@ -1473,14 +1481,14 @@ package main
 //@ define actOK = has(ceo.Attrs, "active") && is(ceo.Attrs["active"], types.Bool) && as(ceo.Attrs["active"], types.Bool).Null
 
 //@ emits CopyTo when (Kind == "ObjectList" || Kind == "ObjectMap") && Ctx == "plain" && Nested == "empty" && IsNullable
-//@ invariant[0] imp(dn && !weird, is(cel, types.Object) && !ceo.Unknown && ceo.AttrTypes == eot.AttrTypes && ceo.Null == (sj == nil))
-//@ invariant[0] imp(dn && !weird && sj != nil, ceo.Attrs != nil && fresh(ceo.Attrs))
-//@ invariant[0] imp(dn && !weird && sj != nil && has(eot.AttrTypes, "active"), actOK)
+//@ invariant[$L] imp(dn && !weird, is(cel, types.Object) && !ceo.Unknown && ceo.AttrTypes == eot.AttrTypes && ceo.Null == (sj == nil))
+//@ invariant[$L] imp(dn && !weird && sj != nil, ceo.Attrs != nil && fresh(ceo.Attrs))
+//@ invariant[$L] imp(dn && !weird && sj != nil && has(eot.AttrTypes, "active"), actOK)
 //@ ensures [C03,C09,C08,C02] imp(isCT && inr && !weird, is(el, types.Object) && !eo.Unknown && eo.AttrTypes == eot.AttrTypes && eo.Null == (sj == nil))
 //@ ensures [C03,C10] imp(isCT && inr && !weird && sj != nil && has(eot.AttrTypes, "active"), has(eo.Attrs, "active") && is(eo.Attrs["active"], types.Bool) && as(eo.Attrs["active"], types.Bool).Null)
 
 //@ emits CopyTo when (Kind == "ObjectList" || Kind == "ObjectMap") && Ctx == "plain" && Nested == "empty" && !IsNullable
-//@ invariant[0] imp(dn && !weird, is(cel, types.Object) && !ceo.Unknown && ceo.AttrTypes == eot.AttrTypes && !ceo.Null && ceo.Attrs != nil && fresh(ceo.Attrs))
-//@ invariant[0] imp(dn && !weird && has(eot.AttrTypes, "active"), actOK)
+//@ invariant[$L] imp(dn && !weird, is(cel, types.Object) && !ceo.Unknown && ceo.AttrTypes == eot.AttrTypes && !ceo.Null && ceo.Attrs != nil && fresh(ceo.Attrs))
+//@ invariant[$L] imp(dn && !weird && has(eot.AttrTypes, "active"), actOK)
 //@ ensures [C03,C09,C08,C02] imp(isCT && inr && !weird, is(el, types.Object) && !eo.Unknown && eo.AttrTypes == eot.AttrTypes && !eo.Null)
 //@ ensures [C03,C10] imp(isCT && inr && !weird && has(eot.AttrTypes, "active"), has(eo.Attrs, "active") && is(eo.Attrs["active"], types.Bool) && as(eo.Attrs["active"], types.Bool).Null)
